@@ -445,12 +445,28 @@ class Store(object):
                 self.bad("C22", "length", "share length %d != allocated size %d" % (L, sh["size"]))
 
     # leases on immutable and mutable shares
+    def op_full_add_lease(self, si_i, sec_i):
+        """add_lease while the disk is full (no room for anything new).  Renewing a lease that exists needs no room."""
+        saved = self.disk.capacity
+        self.disk.capacity = 0
+        self.probe("add-lease-on-full-disk")
+        try:
+            self.op_add_lease(si_i, sec_i)
+        finally:
+            self.disk.capacity = saved
+
     def op_add_lease(self, si_i, sec_i):
         now = R.seconds()
+        finals_ = [v for k, v in list(self.imm.items()) + list(self.mut.items()) if k[0] == si_i and v.get("state", "final") == "final"]
+        pure_renewal = bool(finals_) and all(any(l and l["renew"] == sec_i for l in v["leases"]) for v in finals_) \
+            and not any(v.get("leases_unsure") for v in finals_)
         try:
             self.fss.remote_add_lease(si_of(si_i), secret_of("renew", sec_i), secret_of("cancel", sec_i))
         except NoSpace:
             self.probe("add-lease-nospace")
+            if pure_renewal:
+                self.bad("C25", "renewal-refused-for-space", "add_lease with a renew secret that every share of the bucket already holds was refused "
+                         "with NoSpace: renewing an existing lease adds no record")
             for k, v in list(self.imm.items()) + list(self.mut.items()):
                 if k[0] == si_i:
                     v["leases_unsure"] = True
@@ -466,6 +482,17 @@ class Store(object):
                   if k[0] == si_i and v.get("state", "final") == "final"]
         known_everywhere = shares and all(any(l and l["renew"] == sec_i for l in v["leases"]) for k, v in shares)
         known_nowhere = not any(any(l and l["renew"] == sec_i for l in v["leases"]) for k, v in shares)
+        if any(v.get("leases_unsure") for k, v in shares):
+            # an add_lease that ran out of space part-way may have reached some shares of the bucket: the model does not know
+            # which leases exist, so this renewal cannot be judged
+            try:
+                self.fss.remote_renew_lease(si_of(si_i), secret_of("renew", sec_i))
+            except IndexError:
+                pass
+            self.probe("renew-after-unsure-leases")
+            for k, v in shares:
+                v["leases_unsure"] = True        # the whole bucket's leases are now beyond what the model tracks
+            return
         before = self.snapshot_files() if known_nowhere else None
         try:
             self.fss.remote_renew_lease(si_of(si_i), secret_of("renew", sec_i))
@@ -505,6 +532,8 @@ class Store(object):
         path = self.final_path(key)
         sf = ShareFile(path) if kind == "imm" else MutableShareFile(path, self.ss)
         has = any(l and l["cancel"] == sec_i for l in sh["leases"])
+        if sh.get("leases_unsure"):
+            return
         try:
             sf.cancel_lease(secret_of("cancel", sec_i))
             got = "ok"
@@ -851,6 +880,8 @@ def gen_case(seed, tier, profile):
     for i, fam in enumerate(kinds):
         if profile == "lease" and ch.chance(W, ("schema", i), 0.08):
             ops.append(["schema", ch.pick(W, ("iv", i), [1, 2]), ch.pick(W, ("mv", i), [1, 2])])
+        if profile == "lease" and ch.chance(W, ("full", i), 0.1):
+            ops.append(["full_add_lease", ch.randrange(W, ("fsi", i), n_si), ch.randrange(W, ("fsec", i), 5)])
         if profile == "lease" and ch.chance(W, ("cancel", i), 0.06):
             ops.append(["cancel_lease", fam, ch.randrange(W, ("csi", i), n_si), ch.randrange(W, ("csh", i), n_sh),
                         ch.randrange(W, ("csec", i), 7)])
